@@ -8,6 +8,7 @@ PROPS_PASSES = "RotoV.Props.C18Passes"
 PROPS_HISTORY = "RotoV.Props.C18History"
 PROPS_NAMES = "RotoV.Props.C18Names"
 PROPS_DECLTYPE = "RotoV.Props.C18DeclType"
+PROPS_DECLRT = "RotoV.Props.C18DeclRuntimeType"
 
 
 def search(ctx):
@@ -56,10 +57,12 @@ def run(ctx):
         ctx.coverage["axioms"] = {k: v for p in parts for k, v in (p["axioms"] or {}).items()}
     # the decision of Rt::declare_type (its guards over the registered entries, regenerated): "a Rust type is registered
     # twice" is decided on the Rust type alone, whatever the identifier and the scope
-    # + TypeChecker::declare_runtime_type as facts (target declrtype) and the invariant of the two indexes of
-    # Vec<RuntimeType> established for every reachable runtime (Lemmas/RegistrationTypeIndex.lean)
+    # + the invariant of the two indexes of Vec<RuntimeType> established for every reachable runtime
     ok6 = prove(PROPS_DECLTYPE, ["RotoV.Model.RegistrationDeclType", "RotoV.Lemmas.RegistrationTypeIndex"])
-    ok2 = ok2 and ok3 and ok4 and ok5 and ok6
+    # TypeChecker::declare_runtime_type as facts (target declrtype): the primitive shortcut looks in the registration's
+    # own scope only, declares nothing; otherwise the own name is inserted
+    ok7 = prove(PROPS_DECLRT)
+    ok2 = ok2 and ok3 and ok4 and ok5 and ok6 and ok7
     if not (ok1 and ok2):
         ctx.lake_build(["rotov-driver"])
     if ctx.build_harness("c18"):
